@@ -84,6 +84,21 @@ def run(ctx):
     ctx.floor("P1", "panic-site obligations in the decoder-reachable set", 150, n)
     from .common import import_length_predictor_agreement
     import_length_predictor_agreement(ctx, "P2g")
+    # P4 a `poll_*` function must loop, not call itself: how often it goes round before an item or `Pending` appears is decided by the peer
+    # (control frames, empty frames, messages that complete no frame), so the recursion depth - and with it the stack - is the peer's to choose;
+    # a stack overflow aborts the whole process, not just the flow's task
+    n_poll = 0
+    for b in prog.prod_bodies():
+        if b.root != b.defp or not (b.method or "").startswith("poll_") or not b.impl_trait:
+            continue
+        n_poll += 1
+        fb = prog.flat(b.defp)
+        rec = [(blk, c, t) for (blk, c, t) in fb.calls() if prog.body(c.target) is not None and prog.body(c.target).defp == b.defp and "inlined_call" not in t]
+        for (blk, c, t) in rec:
+            ctx.ob("P2", b.defp, "poll-fn-does-not-recurse", loc(t["sp"]), False,
+                   f"`{last_seg(b.defp)}` calls itself to go round again: every transport message that yields no item costs one stack frame, the depth is chosen by the peer (a burst of "
+                   "payload-less frames), and overflowing the worker's stack aborts the process")
+    ctx.floor("P1", "poll_* functions of trait impls scanned for self-recursion", 5, n_poll)
     # unwrap/expect passed as a function value
     for b in prog.prod_bodies():
         if b.defp not in an.visited_fns and not ("handshake" in b.defp):
